@@ -12,7 +12,7 @@ use std::panic::{catch_unwind, AssertUnwindSafe};
 pub fn run_stream(ctx: &mut Ctx, name: &str) {
 	match name {
 		"compact" => compact_stream(ctx),
-		"enc" | "rt" | "mut" | "rand" | "exh" | "cut" | "decall" | "skip" | "count" | "limit" | "mem" | "stacks" =>
+		"enc" | "rt" | "mut" | "rand" | "exh" | "cut" | "decall" | "skip" | "count" | "limit" | "mem" | "stacks" | "mel" =>
 			catalogue::run_all(ctx, name),
 		"wrapops" => wrapops_stream(ctx),
 		"len" => len_stream(ctx),
@@ -21,6 +21,7 @@ pub fn run_stream(ctx: &mut Ctx, name: &str) {
 			concat_stream(ctx);
 		},
 		"big" => big_stream(ctx),
+		"append" => crate::append::append_stream(ctx),
 		"utf8" => utf8_stream(ctx),
 		other => panic!("unknown stream {}", other),
 	}
@@ -1143,5 +1144,44 @@ fn wrapops_stream(ctx: &mut Ctx) {
 				ctx.emit("memops", "MemTrackingInput<&[u8]>", &format!("mops {} {} {}", limit, hex_or_dash(&data), ops.join(" ")), &out.join(" "));
 			}
 		}
+	}
+}
+
+// ---------------------------------------------------------------------------------------------
+// MaxEncodedLen / ConstEncodedLen (C13)
+// ---------------------------------------------------------------------------------------------
+
+pub fn run_mel_type<T: Cat>(ctx: &mut Ctx, name: &'static str, o: &TypeOpts, mel: Option<usize>, cel: bool) {
+	let ty = T::ty(4);
+	if let Some(m) = mel {
+		ctx.emit("mel", name, &format!("mel {}", ty), &format!("{}", m));
+	}
+	if cel {
+		ctx.emit("cel", name, &format!("cel {}", ty), "yes");
+	}
+	let m = match mel {
+		Some(m) => m,
+		None => return,
+	};
+	let tyseed = name.bytes().fold(ctx.seed, |a, b| a.wrapping_mul(31).wrapping_add(b as u64));
+	let mut g = G::new(tyseed ^ 0x3E1, o.budget);
+	let n = if ctx.tier_thorough { 3000 } else { 300 };
+	let mut longest = 0usize;
+	for _ in 0..n {
+		g.budget = o.budget;
+		let v = T::gen(&mut g);
+		let l = v.encode().len();
+		longest = longest.max(l);
+		// oracles (C13): no value exceeds the declared maximum; CEL types always hit it exactly
+		if l > m {
+			ctx.oracle_fail("C13", format!("{}: max_encoded_len() = {} but {} encodes to {} bytes", name, m, val_string(&v, false), l));
+		}
+		if cel && l != m {
+			ctx.oracle_fail("C13", format!("{}: marked ConstEncodedLen with max_encoded_len() = {} but {} encodes to {} bytes", name, m, val_string(&v, false), l));
+		}
+	}
+	ctx.count("mel:types", 1);
+	if longest == m {
+		ctx.count("mel:types-where-maximum-was-attained", 1);
 	}
 }
